@@ -13,11 +13,13 @@ import (
 	"fmt"
 	"testing"
 	"testing/synctest"
+	"time"
 
 	"verif/kit"
 
 	"github.com/mycoria/mycoria/config"
 	"github.com/mycoria/mycoria/frame"
+	"github.com/mycoria/mycoria/peering"
 	"github.com/mycoria/mycoria/m"
 )
 
@@ -65,6 +67,9 @@ type fault struct {
 	// bFirst: B's messages of a round are delivered before A's. With this
 	// ordering message numbers are: 0 B-req, 1 A-req, 2 B-resp, 3 A-resp, 4 B-ack, 5 A-ack.
 	bFirst bool
+	// thenHonest: after the faulted connection has ended, the same two
+	// routers connect again without any fault.
+	thenHonest bool
 }
 
 func (f fault) String() string {
@@ -98,6 +103,9 @@ type outcome struct {
 	panicA, panicB any
 	sizes          []int
 	rounds         int
+	// second (honest) connection of a thenHonest case.
+	second                    bool
+	reg2A, reg2B, traffic2 bool
 	doneA, doneB   bool
 }
 
@@ -198,10 +206,8 @@ func run(t *testing.T, c hsConfig, f fault) (o outcome) {
 			o.regB = true
 			o.peerB = l.Peer() == a.Identity().IP && l == lb
 		}
-		if o.regA && o.regB && la != nil && lb != nil {
-			// traffic sealed by either link end must unseal at the other.
-			o.trafficChecked = true
-			o.traffic = true
+		trafficOK := func(w *kit.Wire, la, lb peering.Link) bool {
+			ok := true
 			w.OnMsg = nil
 			for dir := 0; dir < 2; dir++ {
 				src, dst, l := a, b, la
@@ -224,13 +230,41 @@ func run(t *testing.T, c hsConfig, f fault) (o outcome) {
 					case got := <-dst.SwitchIn:
 						d, _ := got.FrameDataWithMargins(0, 0)
 						if !bytes.Equal(d, want[i]) {
-							o.traffic = false
+							ok = false
 						}
 					default:
-						o.traffic = false
+						ok = false
 					}
 				}
 			}
+			return ok
+		}
+		if o.regA && o.regB && la != nil && lb != nil {
+			// traffic sealed by either link end must unseal at the other.
+			o.trafficChecked = true
+			o.traffic = trafficOK(w, la, lb)
+		}
+		if f.thenHonest {
+			// end the first connection completely, then connect again.
+			for _, l := range append(a.Peering().GetLinks(), b.Peering().GetLinks()...) {
+				l.Close(nil)
+			}
+			w.EA.FeedEOF()
+			w.EB.FeedEOF()
+			synctest.Wait()
+			_ = w.EA.Close()
+			_ = w.EB.Close()
+			synctest.Wait()
+			time.Sleep(100 * time.Millisecond)
+			w2, _ := session(a, b, nil, f.bFirst)
+			o.second = true
+			la2 := a.Peering().GetLink(b.Identity().IP)
+			lb2 := b.Peering().GetLink(a.Identity().IP)
+			o.reg2A, o.reg2B = la2 != nil, lb2 != nil
+			if la2 != nil && lb2 != nil {
+				o.traffic2 = trafficOK(w2, la2, lb2)
+			}
+			w2.Shutdown()
 		}
 		w.Shutdown()
 	})
@@ -240,7 +274,7 @@ func run(t *testing.T, c hsConfig, f fault) (o outcome) {
 func TestC04(t *testing.T) {
 	env := kit.GetEnv()
 	rep := kit.NewReport("C04", env)
-	rep.Rule = "configurations: ordered identity pairs (incl. self-connection) x universe {same, different, both empty} x secret {same, different, only A, only B, none}; faults on each of the six handshake messages: every bit of every byte (one configuration; the others: header, first/last 16 body bytes and signature), truncation to every length (step 1 for the first 60 bytes, then every 7th), drop, duplicate, replay of the same-position message recorded from a previous complete session of the same pair, reflection to the sender (instead of / in addition to forwarding), under both dispatch orders of simultaneous messages; an active impostor with its own key pair that speaks the full protocol claiming another router's address, over connection sequences (forged key / genuine address, router known or unknown beforehand); an attacker with its own valid identity but without the universe secret that copies the victim's challenge and lifts the victim's universe proof; a three-party relay in which the attacker peers with the real P under its own identity using the victim's challenge and passes P's signed messages on to the victim; outcome on both ends after bubble quiescence; non-trivial = any fault other than none / harmless TTL-flow bits, or a configuration that must be refused; states = distinct (registered-at-A, registered-at-B, rounds) outcomes per (config, fault)"
+	rep.Rule = "configurations: ordered identity pairs (incl. self-connection) x universe {same, different, both empty} x secret {same, different, only A, only B, none}; faults on each of the six handshake messages: every bit of every byte (one configuration; the others: header, first/last 16 body bytes and signature), truncation to every length (step 1 for the first 60 bytes, then every 7th), drop, duplicate, replay of the same-position message recorded from a previous complete session of the same pair, reflection to the sender (instead of / in addition to forwarding), under both dispatch orders of simultaneous messages; for a representative fault of every kind on every message: after the disturbed connection has ended the same two routers connect again undisturbed, and that connection must establish with working link keys; an active impostor with its own key pair that speaks the full protocol claiming another router's address, over connection sequences (forged key / genuine address, router known or unknown beforehand); an attacker with its own valid identity but without the universe secret that copies the victim's challenge and lifts the victim's universe proof; a three-party relay in which the attacker peers with the real P under its own identity using the victim's challenge and passes P's signed messages on to the victim; outcome on both ends after bubble quiescence; non-trivial = any fault other than none / harmless TTL-flow bits, or a configuration that must be refused; states = distinct (registered-at-A, registered-at-B, rounds) outcomes per (config, fault)"
 	rep.Assumptions = []string{
 		"both ends run the real handleSetup; the adversary only controls the byte stream (it holds no private key)",
 		"blocked-forever handshakes are legal outcomes ('no link'), observed through bubble quiescence, never through a timeout",
@@ -304,6 +338,17 @@ func TestC04(t *testing.T) {
 		}
 		if o.trafficChecked && !o.traffic {
 			rep.Violate(key("keys-disagree"), fmt.Sprintf("both ends registered but traffic sealed by one end does not arrive intact at the other: %s; %s", c, f), desc)
+		}
+		// (4) a failed or disturbed connection must not poison the next one.
+		if o.second && mayA && mayB {
+			switch {
+			case !(o.reg2A && o.reg2B):
+				rep.Violate(key("next-connection-not-established"), fmt.Sprintf("after the faulted connection ended, an undisturbed connection of the same routers did not establish (A=%v B=%v): %s; %s", o.reg2A, o.reg2B, c, f), desc)
+			case !o.traffic2:
+				rep.Violate(key("next-connection-keys-disagree"), fmt.Sprintf("after the faulted connection ended, an undisturbed connection of the same routers established but its link traffic does not arrive intact: %s; %s", c, f), desc)
+			default:
+				rep.Outcome("fault/next-connection-fine")
+			}
 		}
 		// (3) liveness without fault.
 		if f.kind == fNone {
@@ -375,6 +420,23 @@ func TestC04(t *testing.T) {
 						continue
 					}
 					f := fault{kind: k, msg: mi, bFirst: bf}
+					judge(c, f, run(t, c, f))
+				}
+			}
+			// the same pair connects again after a disturbed connection.
+			for _, bf := range []bool{false, true} {
+				for _, f := range []fault{
+					{kind: fDrop, msg: mi}, {kind: fDup, msg: mi}, {kind: fReflect, msg: mi}, {kind: fReplayPrev, msg: mi},
+					{kind: fTruncate, msg: mi, pos: size / 2}, {kind: fTruncate, msg: mi, pos: size - 1},
+					{kind: fBitflip, msg: mi, pos: size - 1, bit: 0}, {kind: fBitflip, msg: mi, pos: 60, bit: 3}, {kind: fBitflip, msg: mi, pos: size - 70, bit: 1},
+				} {
+					if bf && (f.kind == fTruncate || f.kind == fBitflip) {
+						continue // positions are measured in the A-first message order
+					}
+					if !mine() {
+						continue
+					}
+					f.bFirst, f.thenHonest = bf, true
 					judge(c, f, run(t, c, f))
 				}
 			}
